@@ -19,7 +19,10 @@
                   create (gzip or rotate-interval) or append, size check
    Simplifications: body and newline are one write; write/fsync/close/mkdir errors other
    than "file already closed" are not modelled; <REV> is assumed to be in the base name.
-   The clock is an argument of the event (one reading per event).  No proofs here. *)
+   The clock is an argument of the event (one reading per event).
+   There is no Kill event: a SIGKILL / power loss at any instant is "stop after any prefix
+   of the emitted trace, then FileOS.crash" (the theorems quantify over all prefixes), which
+   also covers instants inside an event (between two system calls).  No proofs here. *)
 From Coq Require Import List ZArith NArith Bool.
 From NSQV Require Import model.Judge model.FileOS.
 Import ListNotations.
